@@ -67,6 +67,17 @@ static void subj_notified(struct SubjCore *c, int sig, int arg) {
 void Subj0__notify(struct Subj0 *s) { subj_notified(&s->c, SIG_VOID, 0); }
 void SubjI__notify(struct SubjI *s, int a) { subj_notified(&s->c, SIG_INT, a); }
 void SubjR__notify(struct SubjR *s, int *a) { subj_notified(&s->c, SIG_INT_REF, *a); }
+/* ---- the by-value class argument: copies and moves on the way down are visible ---- */
+void Payload__ctor_copy(struct Payload *d, struct Payload *s) {
+  __CPROVER_assert(s->state == PL_LIVE, "C06 an argument is copied while it still holds the value that was passed");
+  d->val = s->val; d->state = PL_LIVE; }
+void Payload__ctor_move(struct Payload *d, struct Payload *s) {
+  __CPROVER_assert(s->state == PL_LIVE, "C06 an argument is moved while it still holds the value that was passed");
+  d->val = s->val; d->state = PL_LIVE; s->state = PL_MOVED; }
+void Payload__dtor(struct Payload *p) { __CPROVER_assert(p->state != PL_RAW, "C06 an argument object is destroyed once"); p->state = PL_RAW; }
+void SubjP__notify(struct SubjP *s, struct Payload *a) {
+  __CPROVER_assert(a->state == PL_LIVE, "C06 a subject receives the argument value that was passed, not a moved-from object");
+  subj_notified(&s->c, SIG_PAYLOAD, a->val); }
 _Bool Subj0__hasSubscriptions(struct Subj0 *s) { return s->c.has_subs; }
 /* ---- std::any_of over the children with the closure of Node::exists ---- */
 static _Bool X_any_of__CIt_CIt_closure_Node__exists_1(struct CIt b, struct CIt e, struct closure_Node__exists_1 pred) {
